@@ -6,7 +6,7 @@ CBlocks over Input / Counter sources, the real-circuit builder, and the C01 orac
 Circuit description (JSON):
 
 spec = {
-  'sources': [{'name', 'kind': 'input'|'counter'|'ainit', 'dom': 'bool'|'int'|'mixed',
+  'sources': [{'name', 'kind': 'input'|'counter'|'ainit'|'astop', 'dom': 'bool'|'int'|'mixed',
                'init': VAL, 'modulo': None|int, 'dur': float, 'fed': bool, 'events': [EV]}],
   'cblocks': [{'name', 'type': 'Not'|'And'|'Or'|'Xor'|'Override'|'Compare'|'Func',
                'low', 'high', 'null': VAL, 'func': name, 'unpack': bool,
@@ -829,6 +829,20 @@ class AInit(edzed.AddonAsync, edzed.SBlock):
         return True
 
 
+class AStop(edzed.AddonAsync, edzed.SBlock):
+    """A source whose asynchronous clean-up (stop_async) takes virtual time."""
+
+    def init_regular(self):
+        self.set_output(self.x_value)
+
+    def _event_put(self, *, value, **_data):
+        self.set_output(value)
+        return True
+
+    async def stop_async(self):
+        await asyncio.sleep(self.x_dur)
+
+
 _ORIG_EVAL = edzed.CBlock.eval_block
 _CURRENT = [None]
 
@@ -926,6 +940,9 @@ class Sim:
                 kw = {'on_output': evs} if evs else {}
                 if s['kind'] == 'counter':
                     return edzed.Counter(name, modulo=s.get('modulo'), initdef=s['init'], **kw)
+                if s['kind'] == 'astop':
+                    return AStop(name, x_dur=s['dur'], x_value=dec(s['init']),
+                                 stop_timeout=s['dur'] + 5.0, **kw)
                 if s['kind'] == 'ainit':
                     return AInit(name, x_dur=s['dur'], x_value=dec(s['init']),
                                  init_timeout=s['dur'] + 5.0, **kw)
